@@ -517,3 +517,160 @@ func ruleRecoverability(c *Ctx, r *Report) {
 		}
 	}
 }
+
+// ruleWaitKeepsTimer (C02/C17): the waiting state arms its retransmission timer once, outside
+// its receive loop, and a received datagram that does not advance the handshake keeps waiting on
+// that same timer: the handler never returns "waiting" to itself (which would arm a fresh timer
+// and let a retransmitting peer postpone this side's own retransmission for ever).
+func ruleWaitKeepsTimer(c *Ctx, r *Report) {
+	const rule = "wait-keeps-timer"
+	waiting := c.enumConsts(pkgHS, "State")["StateWaiting"]
+	n := 0
+	for _, name := range []string{"(*" + pkgHS + ".fsm12).wait", "(*" + pkgHS + ".fsm13).wait"} {
+		fn := c.need(r, rule, name)
+		if fn == nil {
+			continue
+		}
+		r.Sites += len(fn.Blocks)
+		n++
+		// the timer is created outside every loop
+		inLoop := map[*ssa.BasicBlock]bool{}
+		for _, l := range naturalLoops(fn) {
+			for b := range l.blocks {
+				inLoop[b] = true
+			}
+		}
+		timers := findCalls(fn, nameIs("time.NewTimer"))
+		okT := len(timers) == 1 && !inLoop[timers[0].Block()]
+		for _, u := range c.unitFuncs(fn)[1:] {
+			if len(findCalls(u, nameIs("time.NewTimer", "time.After", "time.AfterFunc"))) > 0 {
+				okT = false
+			}
+		}
+		for _, rs := range findCalls(fn, nameHasSuffix("time.Timer).Reset")) {
+			_ = rs
+			okT = false
+		}
+		r.Check(okT, rule, short(fn)+":armed-once", c.pos(fn.Pos()), "one NewTimer, outside the receive loop, never Reset", "the retransmission timer is (re)armed inside the receive loop of the waiting state")
+		// no return of StateWaiting on the receive path (the select case that receives from RecvHandshake)
+		var sel *ssa.Select
+		recvCase := -1
+		for _, b := range fn.Blocks {
+			for _, in := range b.Instrs {
+				if x, ok := in.(*ssa.Select); ok {
+					for i, st := range x.States {
+						if call, ok := st.Chan.(*ssa.Call); ok && call.Call.IsInvoke() && call.Call.Method.Name() == "RecvHandshake" {
+							sel, recvCase = x, i
+						}
+					}
+				}
+			}
+		}
+		if sel == nil {
+			r.Unk(rule, short(fn)+":no-self-transition", c.pos(fn.Pos()), "select with a RecvHandshake case not found")
+			continue
+		}
+		wr := (&Walk{Fn: fn, Assume: func(x ssa.Value) (Val, bool) {
+			bo, ok := x.(*ssa.BinOp)
+			if !ok || bo.Op != token.EQL {
+				return unknown, false
+			}
+			ex, ok := bo.X.(*ssa.Extract)
+			if !ok || ex.Tuple != ssa.Value(sel) || ex.Index != 0 {
+				return unknown, false
+			}
+			k, isC := constInt(bo.Y)
+			if !isC {
+				return unknown, false
+			}
+			return vBool(int(k) == recvCase), true
+		}}).After(sel)
+		onRecvPath := map[*ssa.Return]bool{}
+		for _, ro := range wr.Returns {
+			onRecvPath[ro.Ret] = true
+		}
+		bad := ""
+		for _, b := range fn.Blocks {
+			ret, ok := b.Instrs[len(b.Instrs)-1].(*ssa.Return)
+			if !ok || !onRecvPath[ret] {
+				continue
+			}
+			v := unspill(ret.Results[0])
+			if k, isC := constInt(v); isC {
+				if k == waiting {
+					bad = "returns StateWaiting at " + c.ipos(ret)
+				}
+				continue
+			}
+			if call, _ := callOfResult(v); call != nil {
+				// a state decided by a helper (timeout / cancellation handling): its constants
+				for _, k := range c.handlerStates(fn, 0) {
+					_ = k
+				}
+				if callee := call.Call.StaticCallee(); callee != nil {
+					for _, k := range c.handlerStates(callee, 1) {
+						if k == waiting {
+							bad = "can return StateWaiting through " + short(callee)
+						}
+					}
+				}
+				continue
+			}
+			// a computed state: the return must be unreachable when it equals StateWaiting
+			sh := shapeOf(v, 0)
+			guarded := false
+			for _, b2 := range fn.Blocks {
+				for _, in := range b2.Instrs {
+					bo, ok := in.(*ssa.BinOp)
+					if !ok || (bo.Op != token.EQL && bo.Op != token.NEQ) {
+						continue
+					}
+					k, isC := constInt(bo.Y)
+					if !isC || k != waiting || shapeOf(bo.X, 0) != sh {
+						continue
+					}
+					val := vBool(bo.Op == token.EQL)
+					w := (&Walk{Fn: fn, Assume: func(x ssa.Value) (Val, bool) {
+						if x == ssa.Value(bo) {
+							return val, true
+						}
+						return unknown, false
+					}}).After(bo)
+					if !w.Reached[ret] && instrDominates(bo, ret) {
+						guarded = true
+					}
+				}
+			}
+			if !guarded {
+				bad = "returns a computed state that may be StateWaiting at " + c.ipos(ret)
+			}
+		}
+		r.Check(bad == "", rule, short(fn)+":no-self-transition", c.pos(fn.Pos()), "a non-advancing datagram keeps waiting on the same timer (the handler never returns StateWaiting)", "the waiting state "+bad+": every non-advancing datagram from the peer arms a fresh retransmission timer, so a retransmitting peer can postpone this side's retransmission indefinitely")
+	}
+	r.Floor(rule, n, 2)
+}
+
+// ruleTrackedFragments (C02, DTLS 1.3 partial retransmission): what is remembered about a sent
+// handshake fragment is that fragment's own coordinates - message sequence, fragment offset and
+// fragment length of the header that went on the wire. Selective retransmission after a partial
+// ACK compares exactly these with the fragments it re-cuts.
+func ruleTrackedFragments(c *Ctx, r *Report) {
+	const rule = "tracked-fragment"
+	const tFrag = "internal/handshake.SentHandshakeFragment"
+	const tHdr = "pkg/protocol/handshake.Header"
+	want := map[string]string{"MessageSequence": "MessageSequence", "Offset": "FragmentOffset", "Length": "FragmentLength"}
+	n := 0
+	for f, src := range want {
+		for _, st := range c.StoresTo(tFrag, f) {
+			if k, isC := st.Val.(*ssa.Const); isC && k.Value == nil {
+				continue
+			}
+			n++
+			r.Sites++
+			ls := c.Origins(st.Val, 0)
+			good := allLeaves(ls, func(v ssa.Value) bool { return isFieldLoad(v, tHdr, src) })
+			r.Check(good, rule, short(st.Fn)+":"+f, c.ipos(st.Instr), f+" = the sent fragment header's "+src, "the tracked fragment's "+f+" is not the "+src+" of the fragment header that was sent: after a partial ACK the remaining fragments of the message no longer match and are never retransmitted ("+c.describeAll(ls)+")")
+		}
+	}
+	r.Floor(rule, n, 3)
+}
